@@ -115,6 +115,13 @@ def build(prop_file: str | None, clean: bool = False, extended: bool = False) ->
             res.stage = "translate"
             return res
         res.generated_changed = before is not None and open(gen).read() != before
+        # 1b. state audit of the source (tools/audit.py -> Gen/Sharing.v), same fail-closed contract
+        rc, out = _run([PY, os.path.join(VERIF, "tools", "audit.py")], cwd=VERIF, timeout=300)
+        res.log += out + "\n"
+        if rc != 0:
+            res.ok = False
+            res.stage = "translate"
+            return res
         # 2. makefile
         mk = os.path.join(COQ, "Makefile")
         if not os.path.exists(mk) or os.path.getmtime(mk) < os.path.getmtime(os.path.join(COQ, "_CoqProject")):
